@@ -464,6 +464,10 @@ func c16PQ(c *fw.Case) {
 	} else if c.R.Intn(2) == 0 && len(universe[0]) != 0 {
 		universe = append([][]byte{{}}, universe...)
 	}
+	blocky := c.R.Intn(3) == 0
+	if blocky {
+		c.Obs("pq_cases_with_inputs_made_of_long_runs", 1)
+	}
 	var iters []pq.IteratorWithContext[[]byte, int, int]
 	var inputs [][]c16Elem
 	id := 0
@@ -478,6 +482,19 @@ func c16PQ(c *fw.Case) {
 			n = len(universe)
 		}
 		idxs := c.R.Perm(len(universe))[:n]
+		if blocky {
+			// this input takes whole runs of consecutive keys (it wins many times in a row, then another input takes over)
+			idxs = idxs[:0]
+			for pos := c.R.Intn(4); pos < len(universe); {
+				run := 1 + c.R.Intn(12)
+				for j := 0; j < run && pos < len(universe); j++ {
+					idxs = append(idxs, pos)
+					pos++
+				}
+				pos += c.R.Intn(3 * (k + 1))
+			}
+			n = len(idxs)
+		}
 		sort.Ints(idxs)
 		var el []c16Elem
 		for _, ix := range idxs {
